@@ -189,15 +189,48 @@ func runC16(c *Ctx) {
 		}
 		// loop condition and close-after-zero
 		fd := p.FuncDecl(pkg, "WorkerPool", "dispatcher")
-		cond := ""
-		for _, st := range fd.Body.List {
-			if fs, ok := st.(*ast.ForStmt); ok && fs.Cond != nil && cond == "" {
-				cond = exprKey(fs.Cond)
+		// the loop that pops (in the dispatcher or in a stage helper of it) is left only when the pool
+		// is known not to be running AND the queue is known to be empty: what holds on the exit edge
+		// of its condition, whatever its spelling
+		cond := "no loop around the pop"
+		okDrain := false
+		for _, l := range f.Loops() {
+			inLoop := false
+			for _, pp := range pops {
+				if f.InLoopBody(l, pp) {
+					inLoop = true
+				}
 			}
+			fs, isFor := l.Stmt.(*ast.ForStmt)
+			if !inLoop || !isFor || fs.Cond == nil {
+				continue
+			}
+			cond = exprKey(fs.Cond)
+			notRunning, empty, other := false, false, false
+			for _, ft := range f.EdgeFacts(l.Head, false) {
+				if cl, isCall := ast.Unparen(ft.Atom).(*ast.CallExpr); isCall && !ft.Pol && strings.HasSuffix(exprKey(cl.Fun), ".IsRunning") {
+					notRunning = true
+					continue
+				}
+				if rel, isRel := relOf(ft.Atom); isRel {
+					if !ft.Pol {
+						rel = negRel(rel)
+					}
+					if strings.HasSuffix(rel.L, ".Queue.Size()") && ((rel.Op == "<=" && rel.R == "0") || (rel.Op == "==" && rel.R == "0") || (rel.Op == "<" && rel.R == "1")) {
+						empty = true
+						continue
+					}
+					if strings.HasSuffix(rel.R, ".Queue.Size()") && ((rel.Op == ">=" && rel.L == "0") || (rel.Op == "==" && rel.L == "0") || (rel.Op == ">" && rel.L == "1")) {
+						empty = true
+						continue
+					}
+				}
+				other = true
+			}
+			okDrain = notRunning && empty && !other
 		}
-		recv := fd.Recv.List[0].Names[0].Name
-		want := "(" + recv + ".IsRunning()||(" + recv + ".Queue.Size()>0))"
-		if cond == want || cond == "(("+recv+".Queue.Size()>0)||"+recv+".IsRunning())" {
+		_ = fd
+		if okDrain {
 			r.Pass("shutdown/dispatcher-drains", key, p.posStr(fd.Pos()), "loops while running or the queue is non-empty")
 		} else {
 			r.Fail("shutdown/dispatcher-drains", key, p.posStr(fd.Pos()), "the dispatcher must keep popping while the pool is running or tasks are queued; found "+cond)
@@ -430,8 +463,10 @@ func runC16(c *Ctx) {
 		var subBody *ast.BlockStmt
 		var subPos token.Pos
 		var subParams []string
-		ast.Inspect(fd.Body, func(n ast.Node) bool {
-			if cl, ok := n.(*ast.CallExpr); ok && callNamed("Subscribe")(cl) && len(cl.Args) == 1 {
+		// (looked for on the graph with the helpers in place: the subscription may be shared by both)
+		gf := newFuncCFG(p, info, fd.Body, key)
+		for _, cl := range gf.Calls(func(cl *ast.CallExpr) bool { return callNamed("Subscribe")(cl) && len(cl.Args) == 1 }) {
+			{
 				if b, pos := callableBody(p, info, cl.Args[0]); b != nil {
 					subBody, subPos = b, pos
 					var ft *ast.FuncType
@@ -454,8 +489,7 @@ func runC16(c *Ctx) {
 					}
 				}
 			}
-			return true
-		})
+		}
 		if subBody == nil || len(subParams) != 2 {
 			r.Fail("group/transitions", key, p.posStr(fd.Pos()), "the child counter is not subscribed with a (old, new) callback")
 			continue
@@ -518,15 +552,28 @@ func runC16(c *Ctx) {
 func checkMirrorSubscriptionLives(r *Reporter, p *Prog, pkg string, info *types.Info, fd *ast.FuncDecl, key string) {
 	var handle types.Object
 	dropped := false
+	isCounterSubscribe := func(cl *ast.CallExpr) bool {
+		se, ok := ast.Unparen(cl.Fun).(*ast.SelectorExpr)
+		return ok && se.Sel.Name == "Subscribe" && strings.HasSuffix(strings.TrimPrefix(typeName(info.TypeOf(se.X)), "*"), "syncutils.Counter")
+	}
+	// the function the subscription is made in: the operation itself, or an unexported helper it
+	// shares with its sibling (found on the graph with the helpers in place)
+	for _, cl := range newFuncCFG(p, info, fd.Body, key).Calls(isCounterSubscribe) {
+		for _, g := range p.AllFuncDecls(pkg) {
+			if g.Body != nil && g.Body.Pos() <= cl.Pos() && cl.End() <= g.Body.End() {
+				fd = g
+			}
+		}
+	}
 	ast.Inspect(fd.Body, func(n ast.Node) bool {
 		switch x := n.(type) {
 		case *ast.ExprStmt:
-			if cl, ok := x.X.(*ast.CallExpr); ok && strings.HasSuffix(exprKey(cl.Fun), "Counter.Subscribe") {
+			if cl, ok := x.X.(*ast.CallExpr); ok && isCounterSubscribe(cl) {
 				dropped = true
 			}
 		case *ast.AssignStmt:
 			if len(x.Rhs) == 1 && len(x.Lhs) == 1 {
-				if cl, ok := ast.Unparen(x.Rhs[0]).(*ast.CallExpr); ok && strings.HasSuffix(exprKey(cl.Fun), "Counter.Subscribe") {
+				if cl, ok := ast.Unparen(x.Rhs[0]).(*ast.CallExpr); ok && isCounterSubscribe(cl) {
 					if id, isId := x.Lhs[0].(*ast.Ident); isId && id.Name != "_" {
 						handle = objOfIdent(info, id)
 					} else {
